@@ -335,6 +335,129 @@ theorem C01_deleted_refuses (s : State) (hdel : s.deleted = true) (i : Nat) :
       · rw [if_pos h]
       · rw [if_neg h, if_pos hdel]
 
+/-! ### uploads: what is served to a remote peer
+
+`peer.scheduleUpload` answers a request `(index, begin, length)` with
+`n, _ := Pieces.ReadAt(buf[:length], int64(index)*int64(pieceSize) + int64(begin))` and sends
+`Piece{index, begin, buf}` only if `n == length` (peer/peer.go); otherwise it rejects. -/
+
+/-- the payload `scheduleUpload` puts on the wire for a request, if any -/
+def uploadPayload (g : Geom) (s : State) (index begin len : Nat) : Option Bytes :=
+  match (readAt g s ((index * g.ps + begin : Nat) : Int) len).2 with
+  | .read bs false => if bs.length = len then some bs else none
+  | _ => none
+
+/-- **`C01_upload_sound`**: in every reachable state (any interleaving of block arrivals,
+    finalisations, evictions, deletion), a non-empty payload served for `(index, begin, len)`
+    is exactly the `len` bytes of the torrent's true content at offset `index·ps + begin`,
+    they lie inside ONE piece, and that piece is complete and verified against the metainfo
+    hash at that moment (collision resistance as the explicit hypothesis `hcr`); for an
+    in-piece `begin` that piece is `index` itself. -/
+theorem C01_upload_sound (hv : g.Valid) (hs : Nat → Bytes) (content : Bytes)
+    (hcr : ∀ i d, d.length = g.pieceLength i → H d = hs i →
+      d = (content.drop (i * g.ps)).take (g.pieceLength i))
+    (steps : List Step) (hdisc : ∀ st, st ∈ steps → StepGood (Metainfo hs) st)
+    (index begin len : Nat) (bs : Bytes) (hlen : 0 < len)
+    (hup : uploadPayload g (run H g (init g) steps) index begin len = some bs) :
+    bs.length = len ∧ bs = (content.drop (index * g.ps + begin)).take len ∧
+    ∃ p id d, (run H g (init g) steps).pieces[(index * g.ps + begin) / g.ps]? = some p ∧
+      p.state = .complete ∧ p.data = some (id, d) ∧ id ∉ (run H g (init g) steps).freed ∧
+      H d = hs ((index * g.ps + begin) / g.ps) ∧
+      (index * g.ps + begin) % g.ps + len ≤ g.pieceLength ((index * g.ps + begin) / g.ps) ∧
+      (begin < g.ps → (index * g.ps + begin) / g.ps = index ∧ (index * g.ps + begin) % g.ps = begin) := by
+  have hinv := C01_inv_metainfo g H hv hs steps hdisc
+  unfold uploadPayload at hup
+  have hcontent := C01_content g H hv hs content hcr steps hdisc (index * g.ps + begin) len
+  rcases C01_read_sound g H _ hv _ hinv (index * g.ps + begin) len with h | h | h
+  · rw [h.2] at hup; cases hup
+  · rw [h.2] at hup
+    simp only at hup
+    split at hup
+    · rename_i h0; simp at h0; omega
+    · cases hup
+  · obtain ⟨_, p, id, d, hp, hc, hd, hlive, hh, hgood, hl, hread, _, hfit⟩ := h
+    have hc2 := hcontent _ false (by rw [hread])
+    rw [hread] at hup
+    simp only at hup
+    split at hup
+    · rename_i hbl
+      cases hup
+      refine ⟨hbl, hc2.trans (by rw [hbl]), p, id, d, hp, hc, hd, hlive, (by rw [hh]; exact hgood),
+        (by rw [hbl] at hfit; exact hfit), ?_⟩
+      intro hb
+      have hps := hv.ps
+      constructor
+      · rw [Nat.mul_comm, Nat.mul_add_div hps, Nat.div_eq_of_lt hb]; rfl
+      · rw [Nat.mul_comm, Nat.mul_add_mod, Nat.mod_eq_of_lt hb]
+    · cases hup
+
+/-! ### the top-level statement
+
+`ReadAt` is ONE atomic step: its completeness test and its copy happen in the same hold of
+the read lock (`C01_lock_discipline` below, about the current source), so "Del/Expire between
+the test and the copy" is not an interleaving of the code, and every interleaving of any
+number of readers, hashers, AddData, Expire and Del calls is a `List Step`. -/
+
+/-- **`C01_main`**.  Take ANY history `steps = pre ++ st :: post` of the store (all
+    interleavings of k readers, hashers, block arrivals — valid, corrupt, duplicate,
+    misaligned, over-long —, finalisations against the metainfo hashes, evictions, deletion),
+    and look at the step `st` taken in the state `s` reached by `pre`:
+    * if `st` is a `ReadAt(off, n)` with `off ≥ 0`: it does not panic; it reports EOF exactly
+      when `off ≥ length`; the bytes it returns are the torrent's true content at `off`
+      (`hcr`: SHA-1 collision resistance), at most `n` of them; and if it returns any byte,
+      they all come from the buffer of the single piece `off / ps`, which at that moment is
+      complete, hashes to the metainfo digest, is NOT in the set of freed buffers, and the
+      range read ends inside it;
+    * if `st` is the hasher reading its buffer: the buffer is live and unmodified;
+    * no buffer has been freed twice. -/
+theorem C01_main (hv : g.Valid) (hs : Nat → Bytes) (content : Bytes)
+    (hcr : ∀ i d, d.length = g.pieceLength i → H d = hs i →
+      d = (content.drop (i * g.ps)).take (g.pieceLength i))
+    (steps pre post : List Step) (st : Step)
+    (hdisc : ∀ st, st ∈ steps → StepGood (Metainfo hs) st) (hsplit : steps = pre ++ st :: post) :
+    let s := run H g (init g) pre
+    (∀ (off n : Nat), st = .readAt off n →
+      ∃ bs eof, (step H g s st).2 = .read bs eof ∧ (eof = true ↔ g.length ≤ off) ∧
+        (eof = true → bs = []) ∧
+        bs = (content.drop off).take bs.length ∧ bs.length ≤ n ∧
+        (bs ≠ [] → ∃ p id d, s.pieces[off / g.ps]? = some p ∧ p.state = .complete ∧
+          p.data = some (id, d) ∧ id ∉ s.freed ∧ H d = hs (off / g.ps) ∧
+          bs = (d.drop (off % g.ps)).take n ∧
+          off % g.ps + bs.length ≤ g.pieceLength (off / g.ps))) ∧
+    (∀ i b, st = .hashRead i → (step H g s st).2 = .hashed b → b = true) ∧
+    s.freed.Nodup := by
+  intro s
+  have hpre : ∀ x, x ∈ pre → StepGood (Metainfo hs) x := by
+    intro x hx; apply hdisc; rw [hsplit]; exact List.mem_append_left _ hx
+  have hinv : Inv g H (Metainfo hs) s := C01_inv_metainfo g H hv hs pre hpre
+  refine ⟨?_, ?_, hinv.freedNodup⟩
+  · intro off n hst
+    subst hst
+    show ∃ bs eof, (readAt g s off n).2 = .read bs eof ∧ _
+    have hcontent := C01_content g H hv hs content hcr pre hpre off n
+    rcases C01_read_sound g H _ hv s hinv off n with h | h | h
+    · refine ⟨[], true, ?_, ?_, ?_, rfl, Nat.zero_le _, ?_⟩
+      · rw [h.2]
+      · simp; exact h.1
+      · intro _; rfl
+      · intro hne; exact absurd rfl hne
+    · refine ⟨[], false, ?_, ?_, ?_, rfl, Nat.zero_le _, ?_⟩
+      · rw [h.2]
+      · simp; exact h.1
+      · intro h'; cases h'
+      · intro hne; exact absurd rfl hne
+    · obtain ⟨hlt, p, id, d, hp, hc, hd, hlive, hh, hgood, hl, hread, hle, hfit⟩ := h
+      refine ⟨_, false, ?_, ?_, ?_, ?_, hle, ?_⟩
+      · rw [hread]
+      · simp; exact hlt
+      · intro h'; cases h'
+      · exact hcontent _ false (by rw [hread])
+      · intro _
+        exact ⟨p, id, d, hp, hc, hd, hlive, (by rw [hh]; exact hgood), rfl, hfit⟩
+  · intro i b hst hobs
+    subst hst
+    exact C01_no_uaf_hasher g H _ s hinv i b hobs
+
 /-! ### tie to the source: the lock discipline the atomic steps rely on
 
 One `Step` of the model = one hold of `ps.mu`.  That is only a faithful granularity if every
@@ -387,6 +510,11 @@ example : ((run HEx gEx (init gEx) stepsEx).pieces[0]?).map (·.state) = some .c
   decide
 example : (readAt gEx (run HEx gEx (init gEx) stepsEx) 1 10).2 = .read [2, 3, 4] false := by
   decide
+example : uploadPayload gEx (run HEx gEx (init gEx) stepsEx) 0 1 3 = some [2, 3, 4] := by decide
+/-- a request reaching past the end of the piece is not served (short read ⇒ reject) -/
+example : uploadPayload gEx (run HEx gEx (init gEx) stepsEx) 0 1 4 = none := by decide
+/-- after eviction the same request is not served either -/
+example : uploadPayload gEx (run HEx gEx (init gEx) (stepsEx ++ [.del 0 false])) 0 1 3 = none := by decide
 example : ∀ st, st ∈ stepsEx → StepGood (Metainfo (fun _ => [4])) st := by
   intro st h
   simp only [stepsEx, List.mem_cons, List.mem_nil_iff, or_false] at h
